@@ -5,6 +5,8 @@ import Bng.Map
   * `audit` rows  (subscriber, store record, Get answer):  memory and store must agree for every
     subscriber (`store-agree`); right after a restart every stored record must be answered by Get with the
     stored prefix (`restart`); Get answers of different subscribers are always different (`unique`).
+    The audit also carries the REVERSE direction, one row per unit of the pool (unit, GetByPrefix answer):
+    the two directions must describe the same table (`reverse`) — never excused.
     Rows are not judged when the STORE itself is inconsistent for that subscriber: two records announce
     the same prefix, or the record is a remote announcement that could not be applied (it named a prefix
     outside the pool or one held by somebody else) — that is not this node's doing.  Such subscribers
@@ -20,6 +22,16 @@ open Bng
 
 abbrev Verdict := String × String
 
+def hexDigits (n : Nat) : Nat → List Char → List Char
+  | 0, acc => acc
+  | f + 1, acc =>
+    let d := n % 16
+    let ch := if d < 10 then Char.ofNat (48 + d) else Char.ofNat (87 + d)
+    if n < 16 then ch :: acc else hexDigits (n / 16) f (ch :: acc)
+
+/-- lower-case hex, as in the line protocol -/
+def hex (n : Nat) : String := String.ofList (hexDigits n 40 [])
+
 structure Mon where
   afterRestart : Bool := false
   conflicted   : List Nat := []
@@ -30,8 +42,11 @@ structure Mon where
 /-- (subscriber, stored (addr, plen, epoch), Get answer (addr, plen)) -/
 abbrev Row := Nat × Option (Nat × Nat × Nat) × Option (Nat × Nat)
 
+/-- (unit address, prefix length, GetByPrefix answer) -/
+abbrev RevRow := Nat × Nat × Option Nat
+
 inductive Ev where
-  | audit (rows : List Row)
+  | audit (rows : List Row) (rev : List RevRow)
   | restarted
   | mutated (k : Nat)
   /-- an operation that changed nothing for the subscriber's record (refused, failed or read-only) -/
@@ -51,7 +66,7 @@ def dupGet (rows : List Row) : List Verdict :=
   let gets := rows.filterMap fun r => r.2.2.map fun g => (r.1, g)
   gets.filterMap fun (k, g) =>
     match gets.find? (fun (k', g') => k' ≠ k ∧ g' = g) with
-    | some (k', _) => if k < k' then some ("unique", s!"s{k} and s{k'} are both answered {g.1}/{g.2}") else none
+    | some (k', _) => if k < k' then some ("unique", s!"s{k} and s{k'} are both answered {hex g.1}/{g.2}") else none
     | none => none
 
 def rowAgrees : Row → Bool
@@ -59,8 +74,21 @@ def rowAgrees : Row → Bool
   | (_, some (a, l, _), some (a', l')) => a = a' ∧ l = l'
   | _ => false
 
+/-- forward (Get) and reverse (GetByPrefix) answers must be each other's inverse -/
+def reverseCheck (rows : List Row) (rev : List RevRow) : List Verdict :=
+  rev.filterMap fun (a, l, o) =>
+    let holders := rows.filter fun r => r.2.2 == some (a, l)
+    match o with
+    | some k =>
+      if holders.any (fun r => r.1 == k) then none
+      else some ("reverse", s!"the reverse lookup of {hex a}/{l} answers s{k}, but Get of s{k} does not answer {hex a}/{l}")
+    | none =>
+      match holders with
+      | r :: _ => some ("reverse", s!"Get of s{r.1} answers {hex a}/{l}, but the reverse lookup of {hex a}/{l} finds nobody")
+      | [] => none
+
 def check (m : Mon) : Ev → Mon × List Verdict
-  | .audit rows =>
+  | .audit rows rev =>
     let name := if m.afterRestart then "restart" else "store-agree"
     let dup := fun (r : Row) => match r.2.1 with
       | some (x, l, _) => dupStore rows (x, l) || m.badPfx.contains (x, l)
@@ -69,7 +97,7 @@ def check (m : Mon) : Ev → Mon × List Verdict
     -- a subscriber that lost its prefix to a conflicting record in the store stays excused
     let excused := (rows.filter fun r => !rowAgrees r && dup r).map (·.1)
     ({ m with conflicted := excused ++ m.conflicted },
-     dupGet rows ++ bad.map fun r => (name, s!"s{r.1}: the store and Get disagree"))
+     dupGet rows ++ reverseCheck rows rev ++ bad.map fun r => (name, s!"s{r.1}: the store and Get disagree"))
   | .restarted => ({ m with afterRestart := true }, [])
   | .mutated _ => ({ m with afterRestart := false }, [])
   | .attempt => ({ m with afterRestart := false }, [])
@@ -79,7 +107,7 @@ def check (m : Mon) : Ev → Mon × List Verdict
       if g = some (addr, plen) then (m', [])
       else
         ({ m' with conflicted := k :: m'.conflicted },
-         [("remote", s!"s{k} was announced with {addr}/{plen} and is not answered with it")])
+         [("remote", s!"s{k} was announced with {hex addr}/{plen} and is not answered with it")])
     else
       -- an announcement that cannot be applied makes the STORE inconsistent for k and for the present
       -- holder of the prefix (either may lose it at the next reload): both are excused from here on
